@@ -363,9 +363,11 @@ class Flow:
                             if isinstance(t, ast.Name) and t.id == e.id:
                                 idx = j
                     zp = self._zip_position(gen.iter, idx, fn, env, depth)
+                    if zp is None:
+                        zp = self._generator_position(gen.iter, idx, fn, env, depth)
                     if zp is not None:
                         return zp
-                    return fs(("elem", fs(("sub", it, fs(("const", idx))))))
+                    return frozenset(self._iter_unpack(it, idx, env, depth))
             child = n
             n = self.prog.parent.get(n)
         return None
@@ -466,14 +468,7 @@ class Flow:
                 if zp is not None:
                     out |= zp
                     continue
-                itt = self.term(it, f, env, depth + 1)
-                elems = self._iter_elems(itt, env, depth) if any(t[0] == "inst" for t in itt) else frozenset()
-                tuples = [t for t in elems if t[0] == "list" and idx is not None and len(t[1]) > idx]
-                if tuples:
-                    for t in tuples:
-                        out |= t[1][idx]
-                else:
-                    out.add(("elem", fs(("sub", itt, fs(("const", idx))))))
+                out |= self._iter_unpack(self.term(it, f, env, depth + 1), idx, env, depth)
             elif what == "unpack":
                 value, idx, n = payload
                 out |= self._unpack(value, idx, n, f, env, depth)
@@ -488,6 +483,21 @@ class Flow:
         for (val, site, keys, leaf) in self.local_mutations(f).get(name, []):
             out.add(self.mut_term(val, site, keys, leaf, f, env, depth))
         return frozenset(out)
+
+    def _iter_unpack(self, itt, idx, env, depth):
+        """What the idx-th name of a tuple target receives when iterating over a value with terms itt."""
+        out = set()
+        elems = self._iter_elems(itt, env, depth) if any(t[0] in ("inst", "ext") for t in itt) else frozenset()
+        tuples = [t for t in elems if t[0] == "list" and idx is not None and len(t[1]) > idx]
+        if not tuples and idx is not None:
+            # a list that was filled with tuple displays / namedtuples (x.append((a, b)), [..] + [(a, b)]): its elements
+            tuples = self._tuple_elements(itt, idx)
+        if tuples:
+            for t in tuples:
+                out |= t[1][idx]
+        else:
+            out.add(("elem", fs(("sub", itt, fs(("const", idx))))))
+        return out
 
     def _zip_position(self, it, idx, f, env, depth):
         """for a, b in zip(x, y) / for i, a in enumerate(x): the idx-th target takes the elements of that argument only.
@@ -517,6 +527,89 @@ class Flow:
                 return self._iter_elems(self.term(it.args[0], f, env, depth + 1), env, depth)
         return None
 
+    def _nt_fields_of_class(self, c):
+        if not any(ast.unparse(b).split(".")[-1] == "NamedTuple" for b in c.node.bases):
+            return None
+        return [st.target.id for st in c.node.body if isinstance(st, ast.AnnAssign) and isinstance(st.target, ast.Name)]
+
+    def _records(self, terms, idx):
+        """The tuple terms a record-valued expression can be (through element / loop wrappers), provided every alternative is
+        one with more than idx positions; [] otherwise."""
+        found, other = [], False
+        stack = list(terms)
+        seen = 0
+        while stack and seen < 400:
+            t = stack.pop()
+            seen += 1
+            k = t[0]
+            if k == "list":
+                if len(t[1]) > idx:
+                    found.append(t)
+                else:
+                    other = True
+            elif k in ("elem", "added", "inloop", "sub") and len(t) > 1 and isinstance(t[1], frozenset):
+                # an element of a list (loop variable, records[i]) / what was appended to it
+                for x in t[1]:
+                    stack.append(("__in__", x))
+            elif k == "__in__":
+                x = t[1]
+                if x[0] == "list" and not x[1]:
+                    continue        # an empty display contributes no element
+                if x[0] == "list":
+                    # a list object reached through elem(): its display parts are the records
+                    inner = [y for p_ in x[1] for y in p_]
+                    if inner and all(y[0] == "list" for y in inner):
+                        stack.extend(inner)
+                    elif len(x[1]) > idx:
+                        found.append(x)
+                    else:
+                        other = True
+                else:
+                    stack.append(x)
+            elif k == "const" and t[1] is None:
+                continue
+            elif k == "rec":
+                continue
+            else:
+                other = True
+        return found if found and not other else []
+
+    def _tuple_elements(self, terms, idx):
+        """The tuple terms ('list', parts) a list value is made of, when *every* way it gets elements is a tuple display with
+        more than idx positions (through added / elem / loop wrappers); [] otherwise."""
+        found = []
+        other = False
+        stack = [(t, 0) for t in terms]
+        seen = 0
+        while stack and seen < 400:
+            t, d = stack.pop()
+            seen += 1
+            k = t[0]
+            if k == "list":
+                if d == 0:
+                    # the list object itself: its display elements are the elements
+                    for part in t[1]:
+                        for x in part:
+                            stack.append((x, 1))
+                elif len(t[1]) > idx:
+                    found.append(t)
+                else:
+                    other = True
+            elif k in ("added", "elem", "inloop") and len(t) > 1 and isinstance(t[1], frozenset):
+                for x in t[1]:
+                    stack.append((x, 1 if k == "added" else d))
+            elif k == "const" and t[1] is None:
+                continue
+            elif k == "rec":
+                continue
+            elif k == "op" and t[1] == "Add" and d == 0:
+                for part in t[2]:
+                    for x in part:
+                        stack.append((x, 0))
+            else:
+                other = True
+        return found if found and not other else []
+
     def _generator_position(self, it, idx, f, env, depth):
         """for a, b in gen(x) with gen a package generator function all of whose yields are tuple displays: the idx-th target
         takes what the idx-th element of a yield can be."""
@@ -538,10 +631,13 @@ class Flow:
     def _consumed(self, arg_terms, env, depth, scalars_only=False):
         """An argument that is iterated by its consumer (b''.join(x), list(x), x.extend(y) ...): a package iterator instance
         contributes what its __next__ returns, not the arguments it was constructed with."""
-        if not any(t[0] == "inst" for t in arg_terms):
+        def iterated(t):
+            # a package iterator, or a list / tuple built from one (list(hasher))
+            return t[0] == "inst" or (t[0] == "ext" and t[1] in ("builtins.list", "builtins.tuple") and len(t[2]) == 1 and t[2][0] and all(a[0] == "elem" for a in t[2][0]))
+        if not any(iterated(t) for t in arg_terms):
             return arg_terms
-        insts = frozenset(t for t in arg_terms if t[0] == "inst")
-        rest = frozenset(t for t in arg_terms if t[0] != "inst")
+        insts = frozenset(t for t in arg_terms if iterated(t))
+        rest = frozenset(t for t in arg_terms if not iterated(t))
         elems = self._iter_elems(insts, env, depth)
         keep = frozenset(t for t in elems if not (t[0] == "elem" and t[1] <= insts))
         if scalars_only and any(t[0] != "list" for t in keep):
@@ -573,6 +669,12 @@ class Flow:
                         for r in self.res.return_exprs(nxt):
                             out |= self.term(r, nxt, cenv, depth + 1)
                     continue
+            if t[0] == "ext" and t[1] in ("builtins.list", "builtins.tuple", "builtins.sorted", "builtins.reversed", "builtins.iter") and len(t[2]) == 1 \
+                    and t[2][0] and all(a[0] == "elem" for a in t[2][0]):
+                # a container built from an iterable holds that iterable's elements
+                for a in t[2][0]:
+                    out |= a[1]
+                continue
             rest.add(t)
         if rest:
             out.add(("elem", frozenset(rest)))
@@ -679,6 +781,26 @@ class Flow:
                 # methods: bound method value
                 m = self.prog.find_method(c, e.attr)
                 stores = self.attr_stores(c, e.attr)
+                if m is None:
+                    # record.field on a NamedTuple of the package: the field of the tuple(s) the record can be
+                    ntf = self._nt_fields_of_class(c)
+                    if ntf and e.attr in ntf:
+                        if is_self and fn is not None and (fn.qual, fn.self_name) in env:
+                            base_t = env[(fn.qual, fn.self_name)]
+                        elif is_self and fn is not None:
+                            # no calling context: the records the method is called on anywhere in the package
+                            acc = set()
+                            for caller_, call_, _b in self.res.callsites_of(fn):
+                                if caller_ is not None and isinstance(call_.func, ast.Attribute):
+                                    acc |= self.term(call_.func.value, caller_, {}, depth + 1, caller_.module)
+                            base_t = frozenset(acc)
+                        else:
+                            base_t = self.term(e.value, fn, env, depth + 1, mod)
+                        recs = self._records(base_t, ntf.index(e.attr))
+                        if recs:
+                            for r_ in recs:
+                                out |= r_[1][ntf.index(e.attr)]
+                            continue
                 if m is not None and not stores:
                     if any(ast.unparse(d).split(".")[-1] in ("property", "cached_property") for d in m.decorators):
                         # a property: the attribute reads as what the getter returns, for this receiver
@@ -917,6 +1039,9 @@ class Flow:
             for c in self.prog.classes.values():
                 if c.module is m and c.name == func_expr.id and any(ast.unparse(b).split(".")[-1] == "NamedTuple" for b in c.node.bases):
                     fields = [st.target.id for st in c.node.body if isinstance(st, ast.AnnAssign) and isinstance(st.target, ast.Name)]
+                    self.__dict__.setdefault("_nt_defaults", {})[m.name + ":" + c.name] = {st.target.id: st.value for st in c.node.body if isinstance(st, ast.AnnAssign)
+                                                                                           and isinstance(st.target, ast.Name) and st.value is not None}
+                    self.__dict__.setdefault("_nt_class_fields", {})[c.qual] = fields
         cache[key] = fields
         return fields
 
@@ -953,6 +1078,11 @@ class Flow:
                 for kw in expr.keywords:
                     if kw.arg in fields:
                         elts[fields.index(kw.arg)] = kw.value
+                # class X(NamedTuple): field: T = default
+                dflt = self.__dict__.get("_nt_defaults", {}).get((mod or (fn.module if fn else None)).name + ":" + expr.func.id, {}) if isinstance(expr.func, ast.Name) else {}
+                for i_, f_ in enumerate(fields):
+                    if i_ < len(elts) and elts[i_] is None and f_ in dflt:
+                        elts[i_] = dflt[f_]
                 if len(elts) == len(fields) and all(x is not None for x in elts):
                     return elts
         return None
@@ -995,10 +1125,14 @@ class Flow:
                 cenv = self._bind_env(callee, e, fn, env, depth, skip_self)
                 # receiver built by a constructor: bind its constructor parameters too
                 if isinstance(e.func, ast.Attribute) and skip_self:
-                    for rt in self.term(e.func.value, fn, env, depth + 1, mod):
+                    recv_t = self.term(e.func.value, fn, env, depth + 1, mod)
+                    for rt in recv_t:
                         if rt[0] == "inst":
                             for pn, pv in rt[2]:
                                 cenv.setdefault(pn, pv)
+                    # a method of a NamedTuple record: `self` is the record the method is called on
+                    if callee.cls is not None and callee.self_name and self._nt_fields_of_class(callee.cls):
+                        cenv[(callee.qual, callee.self_name)] = recv_t
                 self._fstack.append(callee)
                 try:
                     if callee.is_generator:
@@ -1054,6 +1188,20 @@ def walk_terms(terms, seen=None):
             stack.extend(_subsets(part))
 
 
+def walk_values(terms):
+    """Like walk_terms, but the iterable of a loop annotation (an order carrier, not a source of the value) is not entered."""
+    seen = set()
+    stack = list(terms)
+    while stack:
+        t = stack.pop()
+        if not isinstance(t, tuple) or id(t) in seen:
+            continue
+        seen.add(id(t))
+        yield t
+        for part in (t[1:2] if t[0] == "inloop" else t[1:]):
+            stack.extend(_subsets(part))
+
+
 def _subsets(part):
     if isinstance(part, frozenset):
         return list(part)
@@ -1079,6 +1227,26 @@ def travels_in_container(terms, interesting):
                     holders = [pt for pt in parts if isinstance(pt, frozenset) and any(interesting(y) for y in walk_terms(pt))]
                     if len(holders) > 1:
                         return True
+    return False
+
+
+def merged_positions(terms, interesting):
+    """True if `interesting` origins are reached only by selecting *some* element (loop element, unpacking, variable index) of
+    a tuple / list display of which other positions are not interesting: the term language merged positions that the
+    program keeps apart (records passed around in a list, a namedtuple unpacked in a loop)."""
+    for t in walk_terms(terms):
+        if t[0] in ("elem", "sub", "inloop", "added") and len(t) > 1 and isinstance(t[1], frozenset):
+            stack = list(t[1])
+            seen = 0
+            while stack and seen < 200:
+                b = stack.pop()
+                seen += 1
+                if b[0] == "list" and isinstance(b[1], tuple) and len(b[1]) > 1:
+                    flags = [any(interesting(y) for y in walk_terms(pt)) for pt in b[1] if isinstance(pt, frozenset)]
+                    if any(flags) and not all(flags):
+                        return True
+                elif b[0] in ("elem", "added", "inloop", "sub") and len(b) > 1 and isinstance(b[1], frozenset):
+                    stack.extend(b[1])
     return False
 
 
